@@ -64,7 +64,12 @@ impl DeltaId {
     }
 
     pub fn new_from_anchors(digest: String, anchors: &BTreeSet<DeltaId>) -> DeltaId {
-        let idx = anchors.iter().map(|a| a.index()).max().unwrap_or(0) + 1;
+        let idx = anchors
+            .iter()
+            .map(|a| a.index())
+            .max()
+            .unwrap_or(0)
+            .saturating_add(1);
         DeltaId(idx, digest)
     }
 
@@ -2362,6 +2367,12 @@ impl Melda {
         if !expected_bid.eq(b_id) {
             bail!("delta_identifier_does_not_match")
         }
+        // The index of a delta always exceeds the index of each of its parents
+        if let Some(p) = &anchors {
+            if p.iter().any(|a| a.index() >= b_id.index()) {
+                bail!("delta_index_does_not_exceed_parents")
+            }
+        }
         // Check if referenced packs exist
         if raw_delta.contains_key(PACK_FIELD) {
             let packs = raw_delta
@@ -2417,11 +2428,11 @@ impl Melda {
                                     .as_str()
                                     .ok_or_else(|| anyhow!("expecting_digest_string"))?;
                                 let prev = Revision::from(prev)?;
-                                let r = Revision::new(
-                                    prev.index() + 1,
-                                    digest.to_string(),
-                                    Some(&prev),
-                                );
+                                let index = prev
+                                    .index()
+                                    .checked_add(1)
+                                    .ok_or_else(|| anyhow!("revision_index_overflow"))?;
+                                let r = Revision::new(index, digest.to_string(), Some(&prev));
                                 cs.push(Change(uuid.to_string(), r, Some(prev)));
                             } else {
                                 bail!("invalid_changes_record")
